@@ -231,10 +231,19 @@ func ReadFixedString(buf *bytes.Buffer, fixedLen int) (string, error) {
 func ReadFixedStringTrimPadding(buf *bytes.Buffer, fixedLen int, padChar rune, padLeft bool) (string, error) {
 	strBytes := make([]byte, fixedLen)
 	_, err := io.ReadFull(buf, strBytes)
+	// The writer pads with the single byte byte(padChar); strip exactly that
+	// byte (a string(rune) cutset would be the UTF-8 encoding of the rune).
+	pad := byte(padChar)
 	if padLeft {
-		return string(bytes.TrimLeft(strBytes, string(padChar))), err
+		for len(strBytes) > 0 && strBytes[0] == pad {
+			strBytes = strBytes[1:]
+		}
+	} else {
+		for len(strBytes) > 0 && strBytes[len(strBytes)-1] == pad {
+			strBytes = strBytes[:len(strBytes)-1]
+		}
 	}
-	return string(bytes.TrimRight(strBytes, string(padChar))), err
+	return string(strBytes), err
 }
 
 func ReadFixedStringList[T constraints.Unsigned](buf *bytes.Buffer, fixedLen int) ([]string, error) {
